@@ -145,7 +145,11 @@ class MinMaxAggregator:
         """
 
         def static(cond: AST) -> bool:
-            if cond.ast_type == ASTType.Literal and cond.atom.ast_type == ASTType.SymbolicAtom:
+            if (
+                cond.ast_type == ASTType.Literal
+                and cond.atom.ast_type == ASTType.SymbolicAtom
+                and cond.atom.symbol.ast_type == ASTType.Function
+            ):
                 condition_pred = Predicate(
                     cond.atom.symbol.name,
                     len(cond.atom.symbol.arguments),
